@@ -107,7 +107,12 @@ def run_cases(pid, S, T, work, cases, rep_seed, tag):
                   "tail": (p.stdout or "")[-600:]}
         log("[%s] the code under test ended the harness process (exit %d) in case %d of %d" % (pid, rc, hi, len(cases)))
         trace, p, died = _run_harness(S, T, work, cases[:lo], rep_seed, tag)
-        if died:
+        if died and lo == 0:
+            # it dies without any case: in the part of the harness run that does not depend on the cases
+            killed["kind"] = "%s_process_killed_exit_%d_in_fixed_scenario" % (S["sub"], rc)
+            open(trace, "w").close()
+            p.stdout = json.dumps({"runs": 0, "events": 0})
+        elif died:
             raise ToolError("harness process dies irreproducibly (exit %d)" % rc)
     summ = json.loads(p.stdout.strip().splitlines()[-1])
     mod, cfg = S["trace"]
